@@ -137,6 +137,7 @@ func init() {
 			}
 			return Tuple{Ptr{Obj: ex.newObj(sv, t)}, Iface{}}
 		}
+		ex.ufUse++
 		if !ex.Branch(UF("url.ok", SBool, s)) {
 			return Tuple{Ptr{}, errorIface(ex, "url.Parse")}
 		}
@@ -276,6 +277,7 @@ func init() {
 			if s.IsLit() {
 				return BoolLit(net.ParseIP(s.S).IsLoopback())
 			}
+			ex.ufUse++
 			return UF("ip.loopback", SBool, s)
 		}
 		panic(engineErr("IsLoopback on an IP not produced by net.ParseIP"))
@@ -298,8 +300,10 @@ func init() {
 				if _, err := host(p.S, ""); err != nil {
 					return Tuple{tFalse, errorIface(ex, name+".badpattern")}
 				}
+				ex.ufUse++
 				return Tuple{UF(name+".match", SBool, p, s), Iface{}}
 			}
+			ex.ufUse++
 			if ex.Branch(UF(name+".bad", SBool, p)) {
 				return Tuple{tFalse, errorIface(ex, name+".badpattern")}
 			}
